@@ -851,6 +851,22 @@ theorem c10_db_handle_must_stay :
                               tsClosed := false, dbOpen := true, dbFile := true }).1 = .panic := by
   decide
 
+/-- **a delivery that arrives after `Close` reaches no user code**: whatever routine hands a peer
+message to `TransmitMsg` once the server is closed — `Router.Stop` does not wait for the hand-over
+of parked messages — no constructor runs and no `Dispatch` routine is started, bound to a service
+or not; on a running server whatever is started is also listed (so that it will be shut down) -/
+theorem c10_late_hand_over_reaches_no_user_code (serviceBound closed : Bool) :
+    (closed = true → lateHandOver true closed serviceBound = ⟨false, false, false⟩) ∧
+    ((lateHandOver true closed serviceBound).dispatching = true →
+      (lateHandOver true closed serviceBound).registered = true) := by
+  cases serviceBound <;> cases closed <;> decide
+
+/-- the variant that tests `server.Closed()` only on the path of service-bound protocols: a protocol
+that is not bound to a service is constructed on the closed node and its `Dispatch` is started,
+listed nowhere -/
+theorem c10_closed_test_must_come_first :
+    lateHandOver false true false = ⟨true, true, false⟩ := by decide
+
 /-! ### `Server.Start` / `Server.Close`: the token on `closeitChannel` -/
 
 /-- what holds of the hand-shake in every reachable state of the code as it is -/
@@ -1821,6 +1837,41 @@ theorem c10_local_listener_stop (acts : List LlAct) :
     · rfl
     · rename_i h; exact hinv (by simpa using h)
   exact ⟨hl, hb, by simp [llStep, hl], by simp [llStep, hl]⟩
+
+/-- **an `Accept` error does not end the listener**: as long as nobody stops it, after any number of
+failed `Accept` calls (out of file descriptors, aborted connections) the loop is back in `Accept`,
+the state is what it was, and the next connection is handed to the callback -/
+theorem c10_listener_survives_accept_errors (s : Ln) (k : Nat)
+    (hl : s.loop = .accepting) (hq : s.quitClosed = false) :
+    lnRun s (List.replicate k [LnAct.acceptErr, .checkQuit]).flatten = s ∧
+    (s.sockOpen = true → ∃ s', lnStep s .accept = some s' ∧ s'.handed = s.handed + 1) := by
+  have one : ∀ rest, lnRun s (LnAct.acceptErr :: .checkQuit :: rest) = lnRun s rest := by
+    intro rest
+    cases s with
+    | mk lock listening closed quitClosed sockOpen loop stops handed stopped =>
+      simp only at hl hq
+      subst hl hq
+      simp [lnRun, lnStep]
+  constructor
+  · induction k with
+    | zero => simp [lnRun]
+    | succ n ih =>
+      rw [List.replicate_succ, List.flatten_cons]
+      simp only [List.cons_append, List.nil_append]
+      rw [one]; exact ih
+  · intro ho
+    exact ⟨{ s with handed := s.handed + 1 }, by simp [lnStep, hl, ho], rfl⟩
+
+/-- the variant that returns from `listen` on such an error: one failed `Accept`, later a `Stop` —
+the call holds `listeningLock`, waits on `quitListener`, and no action of the system can ever serve
+it: `Router.Stop` and `Server.Close` hang -/
+theorem c10_listener_accept_error_must_not_end_the_loop :
+    let s := lnRunReturnOnErr {} [.listen, .acceptErr, .checkQuit, .stopCall, .stopLock 0]
+    s.stops = [.waiting] ∧ s.loop = .returned ∧ s.listening = true ∧ s.lock = some 0 ∧
+    lnStepReturnOnErr s (.quitShake 0) = none ∧ lnStepReturnOnErr s (.stopFinish 0) = none ∧
+    lnStepReturnOnErr s .acceptErr = none ∧ lnStepReturnOnErr s .checkQuit = none ∧
+    lnStepReturnOnErr s .listen = none := by
+  decide
 
 /-! ### non-vacuity -/
 
